@@ -158,10 +158,27 @@ def extra(report, env):
         sys.setswitchinterval(old)
     cases += 4 * (200 if env['tier'] == 'quick' else 2000)
     fails.extend(errors[:2])
+    interference(report, env, 'C03')
     bounded(report, 'C03.nesting-threads', '7 outer x 12 inner formulas x {other parser, same parser} x 5 call-out points (depth 2); 4 threads x distinct '
             'parsers with switch interval 1e-6 (a sample of schedules, not an exploration)', cases, fails)
 
 
+def interference(report, env, prop):
+    """ outcome of every evaluation = its outcome in a process that evaluated nothing else, whatever was evaluated before / meanwhile on
+        this or another parser (fresh-process oracle: pyvc.e2e_fresh) """
+    import random as _r
+    from pyvc import e2e
+    from props.common import bounded as _b
+    cases, fails = e2e.check_interference(_r.Random(env['seed'] + 7), env['tier'], env['scratch'])
+    _b(report, prop + '.interference', 'every ordered pair of %d formulas (second after first, on another parser) and seeded interleavings of 2..7 '
+       'evaluations over 3 parsers, 30%% of them with a nested evaluation in the middle, each outcome compared with the outcome of the same formula in a '
+       'freshly started process' % len(e2e.INTERFERENCE_FORMULAS), cases, fails)
+
+
 def replay(rp):
+    if rp.get('interference'):
+        from pyvc import e2e
+        r = e2e.replay_formula(rp)
+        return 0 if isinstance(r, dict) else 1
     print(rp)
     return 1
